@@ -27,6 +27,14 @@ var c03Committees = [][]MemberID{
 
 func c03Scalar(label string) Scalar { return Scalar(vs.ScalarBytes(label)) }
 
+func c03Neg(a Scalar) Scalar {
+	x := a.modNScalar()
+	x.Negate()
+	return NewScalarFromModNScalar(x)
+}
+
+func c03NegTwice(a Scalar) Scalar { return c03Neg(SumScalars(a, a)) }
+
 func c03MemberScalar(id MemberID) Scalar {
 	b := make([]byte, 32)
 	copy(b[24:], sdk.Uint64ToBigEndian(uint64(id)))
@@ -96,7 +104,20 @@ func VerifC03Round() {
 		// soundness of the share check: with R fixed to the assigned nonce, every scalar other than the
 		// honest one (honest + delta, delta != 0 mod n) is rejected
 		if i == 0 {
+			// delta is either an arbitrary non-zero scalar or one of the structured offsets that map the honest
+			// response onto a reflected one (-2k: s' = -k + c*lambda*x answers the negated nonce point;
+			// -2s: s' = -s; -2(s-k): s' = k - c*lambda*x). The structured ones are computed from the real values, so a
+			// counterexample does not depend on the solver's choice of hash outputs and replays natively.
 			delta := c03Scalar("delta_s")
+			switch vs.Pick("delta_kind", 4) {
+			case 1:
+				delta = c03NegTwice(ownPrivNonce[i])
+			case 2:
+				delta = c03NegTwice(sigs[i].S())
+			case 3:
+				delta = c03NegTwice(SumScalars(sigs[i].S(), c03Neg(ownPrivNonce[i])))
+			}
+			vs.Assume(delta.Validate() == nil) // non-zero (the structured offsets vanish with negligible probability)
 			wrongS := SumScalars(sigs[i].S(), delta)
 			fsig, ferr := NewSignatureFromComponents(ownPubNonce[i], wrongS)
 			vs.Assert("forged-sig-builds", ferr == nil)
